@@ -2,5 +2,6 @@ SPECIFICATION TraceSpec
 CONSTANTS
   Draws = 1000
   PlsDraws = 1000
+  FullCross = TRUE
 POSTCONDITION TraceAccepted
 CHECK_DEADLOCK FALSE
